@@ -44,20 +44,38 @@ def verdictJson : Spec.Verdict → Json
   | .noClass => Json.mkObj [("err", "noClass")]
   | .ok cfg => Json.mkObj [("ok", cfgJson cfg)]
 
+def optStr : Option String → Json
+  | none => Json.null
+  | some v => Json.str v
+
+/-- the reserved name standing for `None` must not be used by the input -/
+def usesAnon (sources : List Source) (extra : List Sec) : Bool :=
+  sources.any (fun src => src.any (fun p => p.1 == anonName || (p.2.inherit.getD []).contains anonName)) ||
+  extra.any (fun s => (s.inherit.getD []).contains anonName)
+
+def modelJson (r : Except Err (List (String × String))) (dflt : Except Err (List Entry)) : Json :=
+  match r with
+  | .ok cfg => Json.mkObj [("ok", cfgJson cfg), ("default", match dflt with | .ok l => optStr (defaultOf l) | .error _ => Json.null)]
+  | .error e => errJson e
+
+def specJson (v : Spec.Verdict × Option String) : Json :=
+  match v.1 with
+  | .ok cfg => Json.mkObj [("ok", cfgJson cfg), ("default", optStr v.2)]
+  | other => verdictJson other
+
 def handle : Handler := fun cmd j =>
   match cmd with
   | "c43.collapse" => do
     let srcsJ ← getArr j "sources"
     let sources ← srcsJ.mapM parseSource
     let name ← getStr j "name"
+    if usesAnon sources [] then return Json.str "bad-op"
     let lk := buildLookup sources
-    let model := match collapse lk name with
-      | .ok cfg => Json.mkObj [("ok", cfgJson cfg)]
-      | .error e => errJson e
+    let model := modelJson (collapse lk name) (inherited lk name)
     let order := match inherited lk name with
       | .ok l => Json.arr (l.map fun e => Json.arr #[.str e.name, toJson e.rest.length]).toArray
       | .error _ => Json.null
-    pure (Json.mkObj [("model", model), ("order", order), ("spec", verdictJson (Spec.collapse sources name))])
+    pure (Json.mkObj [("model", model), ("order", order), ("spec", specJson (Spec.collapseD sources name))])
   | "c43.history" => do
     -- a manager over time: {"sources": [...], "ops": [{"op":"collapse","name":n} | {"op":"add","source":[...]} | {"op":"reload"}]}
     let srcsJ ← getArr j "sources"
@@ -69,16 +87,19 @@ def handle : Handler := fun cmd j =>
       | "collapse" => (getStr o "name").map MOp.collapse
       | "add" => ((o.getObjVal? "source").toOption >>= parseSource).map MOp.addSource
       | "reload" => some MOp.reload
+      | "anon" => ((o.getObjVal? "section").toOption >>= parseSec).map (fun p => MOp.collapseAnon p.2)
       | _ => none
+    if usesAnon (sources ++ ops.filterMap (fun o => match o with | .addSource s => some s | _ => none))
+        (ops.filterMap (fun o => match o with | .collapseAnon s => some s | _ => none)) then return Json.str "bad-op"
     let rec go (m : Mgr) : List MOp → List Json
       | [] => []
       | op :: rest =>
         let r := m.step op
         let out := match op, r.2 with
-          | .collapse n, some (.ok cfg) =>
-            Json.mkObj [("model", Json.mkObj [("ok", cfgJson cfg)]), ("spec", verdictJson (Spec.collapse m.sources n))]
-          | .collapse n, some (.error e) =>
-            Json.mkObj [("model", errJson e), ("spec", verdictJson (Spec.collapse m.sources n))]
+          | .collapse n, some res =>
+            Json.mkObj [("model", modelJson res (inherited m.lookup n)), ("spec", specJson (Spec.collapseD m.sources n))]
+          | .collapseAnon sec, some res =>
+            Json.mkObj [("model", modelJson res (inheritedAnon m.lookup sec)), ("spec", specJson (Spec.collapseAnonD m.sources sec))]
           | _, _ => Json.str "ok"
         out :: go r.1 rest
     pure (Json.arr (go (Mgr.init sources) ops).toArray)
